@@ -37,12 +37,13 @@ def main():
     ap.add_argument("--skip-suite", action="store_true")
     ap.add_argument("--needs", default="")
     ap.add_argument("--tier", default="quick")
+    ap.add_argument("--mode", default="worktree", choices=["worktree", "repo"])
     a = ap.parse_args()
     checks = (a.checks or a.property).split(",")
     dst = os.path.join(VERIF, "seeded", a.id)
     os.makedirs(dst, exist_ok=True)
     for fn in ("patch.diff", "demo.py", "notes.md"):
-        if os.path.exists(os.path.join(a.src, fn)):
+        if os.path.exists(os.path.join(a.src, fn)) and os.path.abspath(a.src) != os.path.abspath(dst):
             shutil.copy(os.path.join(a.src, fn), dst)
     patch = os.path.join(dst, "patch.diff")
     meta_path = os.path.join(dst, "meta.json")
@@ -76,32 +77,40 @@ def main():
             tail = r.stdout.strip().splitlines()[-1] if r.stdout.strip() else ""
             ran["test_suite_with_change"] = dict(rc=r.returncode, summary=tail, wall_s=round(time.time() - t0))
             print("suite:", r.returncode, tail, flush=True)
+        # ---- the registered checks against the change ---------------------------------------------------
+        # mode "worktree" (default): the checks run with PYTHONPATH / VERIF_REPO pointing at the patched scratch
+        # worktree, so that nothing else that is running against /repo is disturbed; mode "repo": the change is
+        # applied to /repo itself (git -C /repo apply), the checks are run, and it is undone straight afterwards.
+        scratch = f"/tmp/sv_ev/{a.id}"
+        shutil.rmtree(scratch, ignore_errors=True)
+        os.makedirs(scratch)
+        results = meta.setdefault("checks", {})
+        if a.mode == "repo":
+            assert sh("git -C /repo status --porcelain").stdout.strip() == "", "/repo is not clean"
+            r = sh(f"git -C /repo apply {patch}")
+            assert r.returncode == 0, r.stderr
+            envp = ""
+        else:
+            envp = f"PYTHONPATH={wt} VERIF_REPO={wt} "
+        try:
+            for c in checks:
+                t0 = time.time()
+                r = sh(f"cd {VERIF} && {envp}VERIF_EVIDENCE_DIR={scratch} VERIF_REPLAY_DIR={scratch} VERIF_TIER={a.tier} {PY} "
+                       f"-m checks.check --property {c} --tier {a.tier}", timeout=7200)
+                out = r.stdout + r.stderr
+                viol = [l for l in out.splitlines() if l.startswith("VIOLATION")]
+                detail = [l.strip() for l in out.splitlines() if l.startswith("  ")][:3]
+                results[f"{c}:{a.tier}"] = dict(rc=r.returncode, violations=len(viol), first=detail, wall_s=round(time.time() - t0),
+                                              mode=a.mode, machinery_failure="MACHINERY-FAILURE" in out,
+                                              tail=out[-600:] if r.returncode == 2 else "")
+                print(f"check {c} {a.tier} [{a.mode}]: rc={r.returncode} violations={len(viol)} {detail[:1]}", flush=True)
+        finally:
+            if a.mode == "repo":
+                sh("git -C /repo checkout -- .")
+                assert sh("git -C /repo status --porcelain").stdout.strip() == ""
+            shutil.rmtree(scratch, ignore_errors=True)
     finally:
         sh(f"git -C /repo worktree remove --force {wt}")
-    # ---- the registered checks against the change, applied to /repo itself ---------------------------------
-    st = sh("git -C /repo status --porcelain").stdout.strip()
-    assert st == "", f"/repo is not clean: {st}"
-    scratch = f"/tmp/sv_ev/{a.id}"
-    shutil.rmtree(scratch, ignore_errors=True)
-    os.makedirs(scratch)
-    results = meta.setdefault("checks", {})
-    r = sh(f"git -C /repo apply {patch}")
-    assert r.returncode == 0, r.stderr
-    try:
-        for c in checks:
-            t0 = time.time()
-            r = sh(f"cd {VERIF} && VERIF_EVIDENCE_DIR={scratch} VERIF_REPLAY_DIR={scratch} VERIF_TIER={a.tier} {PY} -m checks.check "
-                   f"--property {c} --tier {a.tier}", timeout=7200)
-            out = r.stdout + r.stderr
-            viol = [l for l in out.splitlines() if l.startswith("VIOLATION")]
-            detail = [l.strip() for l in out.splitlines() if l.startswith("  ")][:3]
-            results[f"{c}:{a.tier}"] = dict(rc=r.returncode, violations=len(viol), first=detail, wall_s=round(time.time() - t0),
-                                          machinery_failure="MACHINERY-FAILURE" in out, tail=out[-300:] if r.returncode == 2 else "")
-            print(f"check {c} {a.tier}: rc={r.returncode} violations={len(viol)} {detail[:1]}", flush=True)
-    finally:
-        sh("git -C /repo checkout -- .")
-        assert sh("git -C /repo status --porcelain").stdout.strip() == ""
-        shutil.rmtree(scratch, ignore_errors=True)
     ok_demo = meta["ran"]["demo_without_change"]["rc"] == 0 and meta["ran"]["demo_with_change"]["rc"] != 0
     ok_suite = a.skip_suite and meta["ran"].get("test_suite_with_change", {}).get("rc") == 0 or \
         meta["ran"].get("test_suite_with_change", {}).get("rc") == 0
